@@ -3,6 +3,7 @@ package props
 import (
 	"fmt"
 	"runtime/debug"
+	"unicode/utf8"
 
 	"go.etcd.io/bbolt"
 	"strings"
@@ -217,7 +218,7 @@ func init() {
 		Rule: "inputs: (a) grammar-derived sentences for every operation alternative x 25 left-hand sides (symbols of every type, sets, map elements, unknown symbols, set functions over sets and non-sets, sub-queries) x literals / arrays / ranges of every type x 16 sort/skip/limit suffixes; " +
 			"(b) token-level mutations of them (delete, duplicate, swap, replace, truncate); (c) all token sequences of length <= 3 (quick) / 4 (thorough) over a 43-token alphabet; (d) random bytes and runes. " +
 			"Every input is parsed against an in-memory symbol table; a panic is a violation; every accepted query is evaluated on rows with all-null fields, empty sets, null set elements and mistyped map values (panic = violation). " +
-			"Rejection oracle: a sentence with one character that no lexer rule matches inserted at a token boundary, and a sentence truncated inside an open parenthesis/bracket/function call, is not a sentence and must be rejected. " +
+			"Rejection oracle: a sentence with one character that no lexer rule matches inserted at a token boundary, and a sentence truncated inside an open parenthesis/bracket/function call, is not a sentence and must be rejected; so must a sentence with a byte that is not valid UTF-8 inserted anywhere, string literals included. " +
 			"The sentence families are also run through Store.QueryIds on a populated bolt store, an emptied one and a database nothing was ever written to (no entities bucket, no index buckets); in-lists of 16-40 integers, strings and floats are among the arrays; (schema Q, with sort / skip / limit suffixes that page past the end) and through ObjectStore.QueryEntities on a populated and an empty in-memory object store (unknown and set-like names in predicates and sort clauses). " +
 			"A canary query with a known truth table is re-parsed between inputs (pooled lexer/parser state). non-trivial = distinct inputs that were accepted and evaluated, plus distinct rejected-by-construction inputs",
 		Assumptions: []string{"membership in the grammar is judged only for non-sentences by construction; termination is a per-worker watchdog (inconclusive when it fires)"},
@@ -444,6 +445,20 @@ func runC10(c *core.Ctx, idx int) {
 				"%q is accepted although %q (U+%04X) belongs to no token; the sentence without it is %q", mutated, j, []rune(j)[0], s)
 		} else {
 			c.Nontrivial("junk", mutated)
+		}
+		// a byte that is no character at all (invalid UTF-8), anywhere - also inside a string literal, where every
+		// character is welcome: the text is no sentence, and must not be read as one about U+FFFD
+		if r.P(0.3) {
+			pos := r.Intn(len(s) + 1)
+			for pos > 0 && pos < len(s) && !utf8.RuneStart(s[pos]) {
+				pos--
+			}
+			bad := core.Pick(r, []string{"\xff", "\xfe", "\x80", "\xc0"})
+			broken := s[:pos] + bad + s[pos:]
+			c.Count("invalid_utf8_inserted", 1)
+			if e.try(broken, "invalid UTF-8 byte inserted") {
+				c.Violationf("C10 text that is not valid UTF-8 is accepted", map[string]any{"input": broken, "sentence": s}, "%q is accepted (the byte %q was inserted at offset %d of %q)", broken, bad, pos, s)
+			}
 		}
 	}
 	truncCheck := func(s string) {
